@@ -912,21 +912,55 @@ func readCalls(p *pkg, fd *ast.FuncDecl) []string {
 	if fd == nil {
 		return res
 	}
-	ast.Inspect(fd.Body, func(n ast.Node) bool {
-		ce, ok := n.(*ast.CallExpr)
-		if !ok {
-			return true
-		}
-		switch exprStr(p.fset, ce.Fun) {
-		case "io.ReadFull":
-			if len(ce.Args) > 0 && exprStr(p.fset, ce.Args[0]) == "r" {
-				res = append(res, "full")
+	// a helper that is not in the vocabulary (extract-method) is part of this function: its read
+	// calls on its own io.Reader parameter count as this function's
+	closures := localClosures(fd)
+	stack := map[ast.Node]bool{fd.Body: true}
+	var walk func(body ast.Node, reader string)
+	walk = func(body ast.Node, reader string) {
+		ast.Inspect(body, func(n ast.Node) bool {
+			ce, ok := n.(*ast.CallExpr)
+			if !ok {
+				return true
 			}
-		case "r.Read":
-			res = append(res, "bare")
-		}
-		return true
-	})
+			switch exprStr(p.fset, ce.Fun) {
+			case "io.ReadFull":
+				if len(ce.Args) > 0 && exprStr(p.fset, ce.Args[0]) == reader {
+					res = append(res, "full")
+				}
+				return true
+			case reader + ".Read":
+				res = append(res, "bare")
+				return true
+			}
+			if exp := p.expansion(fd, closures, ce, stack); exp != nil {
+				// which parameter of the helper receives our reader?
+				inner := reader
+				if key := calleeKey(p.resolved(), ce); key != "" {
+					recv, name := "", key
+					if i := strings.Index(key, "."); i >= 0 {
+						recv, name = key[:i], key[i+1:]
+					}
+					if callee := p.anyFunc(recv, name); callee != nil && callee.Type.Params != nil {
+						idx := 0
+						for _, f := range callee.Type.Params.List {
+							for _, nm := range f.Names {
+								if idx < len(ce.Args) && exprStr(p.fset, ce.Args[idx]) == reader {
+									inner = nm.Name
+								}
+								idx++
+							}
+						}
+					}
+				}
+				stack[exp] = true
+				walk(exp, inner)
+				delete(stack, exp)
+			}
+			return true
+		})
+	}
+	walk(fd.Body, "r")
 	return res
 }
 
